@@ -413,6 +413,25 @@ def check_aggregation(ctx, cls):
         pos_detail = '%d rejection tests found' % len(rej)
     ctx.ob('R16.3-aggregation', 'positive-flag', ok_pos, where,
            "a negative value under the 'positive' flag of *this* parameter is rejected before the family is consulted", pos_detail)
+    # "the log-prior of a parameter vector is the sum over parameters": what check_prior returns on the normal exit is the running sum
+    # itself, unconditionally - nothing between the loop and the return inspects, clips or replaces it
+    accs0 = sorted({src(n_.target) for n_ in ast.walk(lp) if isinstance(n_, ast.AugAssign) and isinstance(n_.op, ast.Add) and isinstance(n_.target, ast.Name)})
+    after = f.body[f.body.index(lp) + 1:]
+    after = [s_ for s_ in after if not (isinstance(s_, ast.Expr) and isinstance(s_.value, ast.Constant))]
+    sum_problems = []
+    if len(accs0) != 1:
+        sum_problems.append('running sums found: %s' % accs0)
+    else:
+        if not (len(after) == 1 and isinstance(after[0], ast.Return) and after[0].value is not None and src(after[0].value) == accs0[0]):
+            sum_problems.append('after the loop over the parameters: %s (expected only `return %s`)' % ('; '.join(util.stmt_key(s_)[:70] for s_ in after) or 'nothing', accs0[0]))
+        init = [s_ for s_ in f.body[:f.body.index(lp)] if isinstance(s_, ast.Assign) and src(s_.targets[0]) == accs0[0]]
+        if len(init) != 1 or util.const_num(init[0].value) != 0:
+            sum_problems.append('the sum does not start at 0')
+        for n_ in ast.walk(lp):
+            if isinstance(n_, ast.Assign) and any(src(t_) == accs0[0] for t_ in n_.targets):
+                sum_problems.append('the sum is overwritten inside the loop: %s' % util.stmt_key(n_)[:70])
+    ctx.ob('R16.3-aggregation', 'sum-returned', not sum_problems, where,
+           'check_prior returns the sum of the per-parameter log-priors, started at 0, unconditionally and unchanged', '; '.join(sum_problems))
     # the verdict on one parameter must not depend on the parameters seen before it: apart from the running sum, no variable written in
     # the loop body may be read in a later iteration before it is written again
     assigned = set()
